@@ -1057,6 +1057,29 @@ func (c *Cluster) doConfChange(n *Node, a Action) bool {
 	}
 	cc := buildCC(a.CC, a.I)
 	c.chk.onConfProposeCall(n, a.I, cc)
+	if len(a.Tags) > 0 {
+		// a client batch: the change followed by ordinary proposals in one message
+		typ, data, err := pb.MarshalConfChange(cc)
+		if err != nil {
+			c.chk.toolError("marshal conf change: " + err.Error())
+			return true
+		}
+		m := &pb.Message{Type: pb.MsgProp.Enum(), From: new(n.id), Entries: []*pb.Entry{{Type: typ.Enum(), Data: data}}}
+		var ents []*pb.Entry
+		for _, t := range a.Tags {
+			key := 0
+			if c.rc.NKeys > 0 {
+				key = t % c.rc.NKeys
+			}
+			ents = append(ents, &pb.Entry{Data: makePayload(t, key, a.J)})
+		}
+		m.Entries = append(m.Entries, ents...)
+		c.chk.onProposeCall(n, a.Tags, ents)
+		perr := n.call("ProposeConfChange", m, func() error { return n.rn.Step(m) })
+		c.chk.onConfProposeReturn(n, a.I, perr)
+		c.chk.onProposeReturn(n, a.Tags, perr)
+		return true
+	}
 	if a.CC2 == nil {
 		err := n.call("ProposeConfChange", nil, func() error { return n.rn.ProposeConfChange(cc) })
 		c.chk.onConfProposeReturn(n, a.I, err)
